@@ -20,7 +20,9 @@ C = {
          "Bound: sequences of length 6 quick / 8 thorough; composition (a)+(b)+C01 is an argument on paper."),
  "C03": ("after every accepted user action from an arbitrary valid forest: in-degree<=1, out-degree<=2, edges strictly "
          "forward in time, only conflicting edges removed; structural refusals are InvalidActionError",
-         "Bound: 3-4 node slots quick / 4-5 thorough. Undo/redo by C01+C02."),
+         "Bound: 3-4 node slots quick / 4-5 thorough. Undo/redo by C01 + the history lemma (real ActionHistory on "
+         "every op sequence of length 5 / 7 over abstract invertible edits; a failing sequence is instantiated with "
+         "real user actions and judged by this property's concrete oracle on the real stack)."),
  "C04": ("track ids = maximal unbranched segments (exact closure form) after construction from a graph without ids and "
          "after every accepted user action; frame clause for untouched components",
          "Bound: 3-4 node slots quick / 4-5 thorough; constructor on all forests <=4/5 nodes."),
@@ -76,8 +78,13 @@ C = {
          "arbitrary real coordinates",
          "The store contract 'what was written is what is read' (geff.write/read_to_memory; to_csv/read_csv with empty "
          "field = missing) is ASSUMED: what zarr / geff / pandas do with the values is outside the claim (replays go "
-         "through the real files). Not claimed: the internal save format, segmentation round trips, display-name CSV "
-         "headers, subset exports. Bound: 3 / 4 node slots, single-key and per-axis position storage, 2D and 3D."),
+         "through the real files). Internal format: real save_tracks composed with real load_tracks(solution=True) "
+         "through an ideal directory (json.load o json.dump = keys as strings, tuples as lists, numbers unchanged, "
+         "non-JSON objects refused; np.load o np.save = equal array, same dtype): additionally lineage ids, loaded "
+         "measurements, every segmentation cell and the dtype, scale (symbolic voxel sizes), feature registry, ndim. "
+         "Not claimed: GEFF segmentation round trips, display-name CSV "
+         "headers, subset exports. Bound: 3 / 4 node slots, single-key and per-axis position storage, 2D and 3D; "
+         "internal format 2-3 slots, 2x1x2 label array."),
  "C15": ("real filter_graph_with_ancestors + export_to_geff / export_to_csv up to the I/O boundary: exported node set = "
          "selection + ancestors, every edge among them, no missing parent, exported array cell = label if kept else 0",
          "Hole: what pandas/geff/zarr do with the captured values (counterexamples are replayed end to end through the "
